@@ -195,6 +195,17 @@ def clamp_check(ctx, fn, size_texts, clause, rule="SIB-3"):
            "the requested count is used without (or before) being clamped to the available size: "
            "n > size takes more rows than exist / raises",
            clause=clause)
+    # the count the caller asked for is replaced by the default only when it was not given
+    if clamps:
+        var = clamps[0][0].targets[0].id
+        for n in body_nodes(fn.node):
+            if isinstance(n, ast.Assign) and n is not clamps[0][0] and any(isinstance(t, ast.Name) and t.id == var for t in n.targets):
+                facts = facts_at(fn, n)
+                okd = ("T", f"{var} is None") in facts or ("F", f"{var} is not None") in facts
+                ctx.ob(rule, fn, f"{norm(n)} only when {var} is None", n, okd,
+                       "the default count replaces a count that was not given" if okd else
+                       f"{norm(n)} is not under `{var} is None`: a count given by the caller is replaced by the default "
+                       f"(and an omitted one reaches min() as None)", clause=clause)
     return 1
 
 
